@@ -1199,16 +1199,21 @@ func (s *rpcSvc) check(c *RPCCase, o *outcome) (vs []viol, obs map[string]int) {
 			obs["stats_end_error_matches"]++
 		}
 	}
-	// informational: tag / header / begin contents
+	// the method-identifying fields of the events, on every protocol and
+	// binding kind
 	for _, e := range st {
 		switch e.Name {
 		case "Tag":
 			if e.Info != full {
-				obs["stats_tag_fullmethod_differs"]++
+				add(pc+":stats-tag-fullmethodname:"+shape, fmt.Sprintf("RPCTagInfo.FullMethodName = %q, want %q (%s)", e.Info, full, c.Proto))
+			}
+		case "InHeader":
+			if info := strings.TrimPrefix(e.Info, "untagged "); info != full {
+				add(pc+":stats-inheader-fullmethod:"+shape, fmt.Sprintf("InHeader.FullMethod = %q, want %q (%s)", info, full, c.Proto))
 			}
 		case "Begin":
-			if e.Info != fmt.Sprintf("cs=%v ss=%v", c.cstream(), c.sstream()) {
-				obs["stats_begin_flags_differ"]++
+			if want := fmt.Sprintf("cs=%v ss=%v", c.cstream(), c.sstream()); strings.TrimPrefix(e.Info, "untagged ") != want {
+				add(pc+":stats-begin-stream-flags:"+shape, fmt.Sprintf("Begin has %s, want %s", e.Info, want))
 			}
 		}
 	}
@@ -1750,6 +1755,7 @@ func RunC18(r *mon.Run) {
 	runLockStep(r, s)
 	s.checkKept(r)
 	runReplyShapes(r)
+	runPayloadIdentity(r)
 	runWS(r)
 }
 
